@@ -189,10 +189,20 @@ func sameParams(a, b map[string]string) bool {
 }
 
 // recOf returns the recorder of the request a handler is serving.
+// RecNF is a recorder whose underlying writer is NOT an http.Flusher (like the writer
+// http.TimeoutHandler hands to its handler).
+type RecNF struct{ R *Rec }
+
+func (r RecNF) Header() http.Header         { return r.R.Header() }
+func (r RecNF) WriteHeader(code int)        { r.R.WriteHeader(code) }
+func (r RecNF) Write(b []byte) (int, error) { return r.R.Write(b) }
+
 func recOf(c *rux.Context) *Rec {
 	switch r := c.RawWriter().(type) {
 	case *Rec:
 		return r
+	case RecNF:
+		return r.R
 	case RecRF:
 		return r.Rec
 	}
